@@ -39,6 +39,9 @@ func init() {
 	firsts["C17"] = c17.FirstCalls
 	firsts["C12"] = c12.FirstCalls
 	firsts["C01"] = c01.FirstCalls
+	firsts["C03"] = c03.FirstCalls
+	firsts["C08"] = c08.FirstCalls
+	firsts["C15"] = c15.FirstCalls
 	props["C01"] = prop{c01.Run, c01.Replay}
 	props["C02"] = prop{c02.Run, c02.Replay}
 	props["C03"] = prop{c03.Run, c03.Replay}
